@@ -6,16 +6,38 @@ import subprocess
 
 HERE = os.path.dirname(os.path.dirname(os.path.abspath(__file__)))
 
+MC = 'explicit-state exhaustive operation-sequence exploration of the real implementation (stateless, replay per node)'
 CHECKS = {
     'C01': ('model_checking', '4/C01',
-            'Exhaustive enumeration of every edit history over the sigma1 alphabet up to the depth bound in 12 (quick) / 256 (thorough, depth 2) configurations, '
-            'each executed on the real implementation, mastered, reopened and compared entry-by-entry and byte-by-byte with a reference model.',
+            'Every edit history over the sigma1 alphabet (plus boundary macro steps, growth/shrink chains and the continuation-area allocator alphabet) up to the depth bound, '
+            'in 12 configurations (256 at depth 2 in the thorough tier), is executed on the real implementation, mastered, reopened and compared entry-by-entry and byte-by-byte with a reference model.',
             'reference model mc/model.py; pycdlib reads its own image here (independent readers: C03/C08/C09/C10); alphabet and depth bounds',
-            'explicit-state exhaustive operation-sequence exploration of the implementation against a reference model'),
+            MC + ' against a reference model'),
+    'C03': ('model_checking', '4/C03',
+            'Every enumerated history is mastered and the bytes are decoded by an independent ECMA-119 reader (mc/readers/r119.py): descriptor set, both-endian fields, record packing and order, dot/dotdot, path tables; '
+            'the recovered tree and contents must equal the reference model and what the library API reports.',
+            'independent decoder r119 is trusted base (validated by vectors and agreement on the unchanged tree)', MC + ' + independent decoder oracle'),
+    'C04': ('model_checking', '4/C04',
+            'For every enumerated history the allocation map (union of the layout maps of all independent decoders) is checked for overlap, bounds, exact image length and shared-iff-linked, and the write log of write_fp for bytes written twice.',
+            'decoders r119/rsusp/r167/rboot; write log from the recording sink', MC + ' + allocation-map oracle'),
     'C05': ('model_checking', '4/C05',
             'For every enumerated history the image is reopened and re-mastered twice with the virtual clock advanced; generations must be byte-identical outside the volume modification dates.',
-            'virtual clock/random seams of mc/env.py; alphabet and depth bounds',
-            'exhaustive operation-sequence exploration with a differential (fixpoint) oracle'),
+            'virtual clock/random seams of mc/env.py; alphabet and depth bounds', MC + ' with a differential (fixpoint) oracle'),
+    'C06': ('model_checking', '4/C06',
+            'For every base history, every placement of up to k deviations (force_consistency / query-everything / extra write at every gap) and the always-consistent mode is executed; final bytes must equal the deviation-free schedule, and record queries after force_consistency must match the next image.',
+            'deviation kinds FC/Q/W/AC; bound on deviations', 'deviation-bounded exhaustive schedule exploration over exhaustive operation sequences'),
+    'C08': ('model_checking', '4/C08',
+            'Every enumerated history (incl. long names, deep chains, continuation-area allocator alphabet) is decoded by an independent SUSP/RRIP reader; names, types, modes, link counts, symlink targets and area well-formedness are checked.',
+            'decoders r119 + rsusp trusted base; link-count rule calibrated on the unchanged tree', MC + ' + independent decoder oracle'),
+    'C09': ('model_checking', '4/C09',
+            'Every enumerated history on Joliet configurations is decoded from the supplementary descriptor by the independent reader; tree, names, shared extents, path tables.',
+            'decoder r119 (UTF-16BE) trusted base', MC + ' + independent decoder oracle'),
+    'C10': ('model_checking', '4/C10',
+            'Every enumerated history on UDF configurations is decoded by an independent ECMA-167 reader starting from the VRS and both anchors; tags, lengths, tree, names, targets, bytes.',
+            'decoder r167 trusted base', MC + ' + independent decoder oracle'),
+    'C11': ('model_checking', '4/C11',
+            'Every enumerated history with El Torito operations is decoded by an independent El Torito reader: boot record, validation checksum, entries, load RBA vs. file location, catalog as file, boot info table.',
+            'decoders rboot + r119 trusted base', MC + ' + independent decoder oracle'),
 }
 
 PENDING = {}
